@@ -765,7 +765,7 @@ func (w *vpWorld) snapshot() vpSnapshot {
 func (w *vpWorld) postChecks(pre vpSnapshot, ev string) {
 	cs := w.cs
 	if cs.Height != vpH {
-		vp.Reach("height-decided")
+		vp.Reach("height-decided?")
 		vp.Assert(len(w.saved) == 1 && len(w.applied) == 1 && w.saved[0] == w.applied[0], "C01.commit.exactly-the-decided-block-is-saved-and-executed")
 		vp.Assert(cs.Height == vpH+1 && cs.Round == 0 && cs.Step == cstypes.RoundStepNewHeight && cs.LockedBlock == nil && cs.ValidBlock == nil && cs.Proposal == nil, "C02.new-height-starts-clean")
 		return
@@ -784,16 +784,16 @@ func (w *vpWorld) postChecks(pre vpSnapshot, ev string) {
 		if post.locked == cNone {
 			// unlock: a polka for something else in a round after the lock, not beyond the current round
 			vp.Assert(w.polkaForOtherIn(pre.lockedRound, post.round, pre.locked), "C02.L5.unlock-only-on-a-later-polka-for-something-else")
-			vp.Reach("unlocked")
+			vp.Reach("unlocked?")
 		} else {
 			// lock / relock: in the round of the precommit just signed, on the block with the polka there
 			vp.Assert(vp.And(post.lockedRound > pre.lockedRound, vp.Sel8(w.majCol(0), post.lockedRound) == post.locked, vp.Sel8(w.pc, post.lockedRound) == post.locked), "C02.L5.lock-only-with-polka-and-precommit-in-that-round")
-			vp.Reach("locked")
+			vp.Reach("locked?")
 		}
 	}
 	// C03-T3: round skipping: +2/3 of anything from a later round moves the node there
 	if ev == "vote" && cs.Round > pre.round {
-		vp.Reach("round-skipped")
+		vp.Reach("round-skipped?")
 	}
 	if ev == "vote" && w.lastVoteRound > pre.round && int(w.lastVoteRound) < len(w.any) {
 		vr := w.lastVoteRound
